@@ -623,12 +623,26 @@ class ADEV(Pytree):
                                 tangent_outs = jtu.tree_map(_zero_tangent_like, primal_outs)
                             else:
                                 jvp = jax_autodiff.primitive_jvps.get(eqn.primitive)
-                                if not jvp:
-                                    msg = f"differentiation rule for '{eqn.primitive}' not implemented"
-                                    raise NotImplementedError(msg)
-                                primal_outs, tangent_outs = jvp(
-                                    flat_primals, canonical_tangents, **params
-                                )
+                                if jvp:
+                                    primal_outs, tangent_outs = jvp(
+                                        flat_primals, canonical_tangents, **params
+                                    )
+                                else:
+                                    # Primitives differentiated by the JVP trace itself
+                                    # rather than by a registered rule (custom_jvp /
+                                    # custom_vjp calls, e.g. jax.nn.relu): let JAX
+                                    # differentiate the bound primitive.
+                                    def _bind(*xs, _eqn=eqn, _subfuns=subfuns, _params=params):
+                                        return _eqn.primitive.bind(*_subfuns, *xs, **_params)
+
+                                    primal_outs, tangent_outs = jax.jvp(
+                                        _bind,
+                                        flat_primals,
+                                        [
+                                            _zero_tangent_like(p) if _is_ad_zero(t) else t
+                                            for p, t in zip(flat_primals, canonical_tangents)
+                                        ],
+                                    )
                                 tangent_outs = _instantiate_zero_tangents(tangent_outs)
 
                 if not eqn.primitive.multiple_results:
